@@ -327,7 +327,7 @@ def symbol_assumptions(draw, nvals=4, p_none=6):
     if draw(st.integers(0, p_none)) != 0:
         # Contains(x, S) for a set S that holds the witness
         if draw(st.integers(0, 3)) != 0:
-            stmts.append(["in", draw(st.sampled_from(SETS[lvl:]))])
+            stmts.append(["in", draw(st.sampled_from([SETS[lvl]] * 3 + SETS[lvl:]))])
         wq = val_gq(w)
         if lvl <= 2:
             fl = Fraction(math.floor(val_mp(w, 30)))
@@ -335,7 +335,7 @@ def symbol_assumptions(draw, nvals=4, p_none=6):
             for side in ("lb", "ub"):
                 if draw(st.integers(0, 2)) != 0:
                     continue
-                pool = [Fraction(0), Fraction(0), Fraction(1), Fraction(-1), Fraction(1, 2), Fraction(-1, 2), Fraction(2),
+                pool = [Fraction(0)] * 6 + [Fraction(1), Fraction(-1), Fraction(1, 2), Fraction(-1, 2), Fraction(2),
                         Fraction(-3), Fraction(5, 2), fl, fl + 1, fl - 1, fl + 2]
                 if wr is not None:
                     pool += [wr, wr, wr]
